@@ -1,12 +1,17 @@
 ----------------------------- MODULE Gen_C08 -----------------------------
-(* Mode B generator for C08: every sequence of rule kinds up to the bound x collect on/off
+(* Mode B generator for C08: every sequence of rule kinds up to the bound x collect on/off x distinct / identical documents per kind
    x (no correlation rule | a non-generating | a generating correlation rule over rule 1 at the end).   *)
 EXTENDS Conversion, Json, IOUtils, TLC
 VARIABLE x
 Quick == IOEnv.VERIF_TIER = "quick"
 MaxRules == IF Quick THEN 3 ELSE 4
-Cases == {[kinds |-> k, collect |-> c, corr |-> co] :
+\* dup: rules of the same kind are the SAME document (equal titles, names, detections) - distinct
+\* rule objects that compare equal and fail with equal errors must still be accounted one by one
+Repeats(k) == \E i, j \in DOMAIN k : i < j /\ k[i] = k[j]
+Cases == {[kinds |-> k, collect |-> c, corr |-> co, dup |-> FALSE] :
             k \in UNION {[1..n -> Kinds] : n \in 1..MaxRules}, c \in BOOLEAN, co \in {"none", "nogen", "gen"}}
+         \cup {[kinds |-> k, collect |-> c, corr |-> "none", dup |-> TRUE] :
+            k \in {kk \in UNION {[1..n -> Kinds] : n \in 2..MaxRules} : Repeats(kk)}, c \in BOOLEAN}
 ASSUME LET S == SetToSeq(Cases) IN ndJsonSerialize(IOEnv.VERIF_OUT, [i \in 1..Len(S) |-> [id |-> i] @@ S[i]])
 Init == x = 0
 Next == UNCHANGED x
